@@ -85,8 +85,9 @@ def make_cases(rng, tier, n):
             c["ops"] = first + conv + tail
             cases.append(c)
         stats["flow_run_idle"] = stats.get("flow_run_idle", 0) + 1
-    # a manifest of a few hundred KiB in the old schema (about 2000 entries) that also lists sub-directories; and many sub-directories
-    # read under a tight descriptor limit (every manifest that is opened is closed again)
+    # a manifest of a few hundred KiB in the old schema (about 2000 entries) that also lists sub-directories; and many (700) sub-directories
+    # read under a tight descriptor limit with the garbage collector off (every manifest that is opened is closed again — by the code,
+    # not by a finalizer that happens to run in time)
     init = [("dir", b"large")] + [("file", b"large/f%04d" % j, "g:%d:%d" % (j % 9, j % 4)) for j in range(1950)]
     for j in range(30):
         init += [("dir", b"large/sub%02d" % j), ("file", b"large/sub%02d/in.txt" % j, "g:%d:6" % (500 + j))]
@@ -95,7 +96,7 @@ def make_cases(rng, tier, n):
     for j in range(700):
         init += [("dir", b"fan/s%03d" % j), ("file", b"fan/s%03d/u.txt" % j, "g:%d:5" % (j % 50))]
     grp.append(("old-fds", dict(id="old-fds", init=init, stages=[(b"fan.yaml", dict(cmd=b"", wd=b".", out=[(b"fan", "d")]))], ops=[], cache="rel", timeout=300,
-                                env=dict(VERIF_NOFILE="300"))))
+                                env=dict(VERIF_NOFILE="300", GOGC="off"))))
     for gid, base in grp:
         for twin, conv in (("old", [("oldschema",)]), ("new", [])):
             c = copy.deepcopy(base)
@@ -103,7 +104,8 @@ def make_cases(rng, tier, n):
             c["group"] = gid
             c["twin"] = twin
             c["flow"] = "checkout"
-            c["ops"] = [("commit", "l", [])] + conv + [("status", []), ("clone", []), ("checkout", "l" if gid == "old-large" else "c", False, []), ("status", [])]
+            c["ops"] = [("commit", "l", [])] + conv + ([("status", []), ("clone", []), ("checkout", "l", False, []), ("status", [])] if gid == "old-large" else
+                                                      [("status", []), ("clone", []), ("checkout", "l", False, [])])
             cases.append(c)
         stats["group_" + gid] = 1
     if tier == "thorough" or n >= 900:
